@@ -28,3 +28,32 @@ Proof.
   split; [reflexivity|]. split; [vm_compute; reflexivity|]. split; [vm_compute; reflexivity|].
   vm_compute. discriminate.
 Qed.
+
+(* ---- query strings the statement quantifies over but for which the code does not keep it (the url:query findings)
+        request: http://h, PATH_INFO "/a" *)
+Definition req_q (q : str) : environ :=
+  mkEnv s_http (Some (H "68"%string)) (H "73"%string) s_80 (Some []) (H "2f61"%string) (Some q) Utf8.
+
+(* QUERY_STRING "a<TAB>b": urlsplit deletes TAB/CR/LF, Request.blank(request.url) has the query "ab" *)
+Lemma blank_query_tab_witness :
+  exists u e', url (req_q [97; 9; 98]) = Ok u /\ environ_from_url (fun _ => true) u = Ok e' /\
+    e_query e' = Some [97; 98] /\ e_query e' <> e_query (req_q [97; 9; 98]).
+Proof. eexists. eexists. repeat split; try (vm_compute; reflexivity). vm_compute. discriminate. Qed.
+
+(* QUERY_STRING "a#b": the URL has a fragment, Request.blank raises TypeError *)
+Lemma blank_query_hash_witness :
+  exists u, url (req_q [97; 35; 98]) = Ok u /\ environ_from_url (fun _ => true) u = Raise ETypeError.
+Proof. eexists. split; vm_compute; reflexivity. Qed.
+
+(* QUERY_STRING "a b" / "é": appended verbatim, request.url is not percent-encoded ASCII *)
+Lemma url_query_verbatim_witness :
+  exists u1 u2, url (req_q [97; 32; 98]) = Ok u1 /\ forallb rfc_query_char (skipn 11 u1) = false /\
+                url (req_q [233]) = Ok u2 /\ forallb is_ascii u2 = false.
+Proof. eexists. eexists. repeat split; vm_compute; reflexivity. Qed.
+
+(* Host "h:080": port 80 spelled with a leading zero is not elided *)
+Lemma default_port_leading_zero_witness :
+  let e := mkEnv s_http (Some (H "683a303830"%string)) (H "73"%string) s_80 (Some []) (H "2f61"%string) None Utf8 in
+  port_value (host_port e) = port_value s_80 /\ host_url e = H "687474703a2f2f683a303830"%string /\
+  host_url e <> e_scheme e ++ s_css ++ domain e.
+Proof. cbv zeta. repeat split; try (vm_compute; reflexivity). vm_compute. discriminate. Qed.
